@@ -121,6 +121,30 @@ struct SelfCmp {
   }
 };
 
+/// heterogeneous key equivalent to a RUN of elements: every element v with v / 2 == b
+struct Bucket {
+  int b;
+};
+/// transparent comparator (int elements): arithmetic keys compare by value (like std::less<>), Bucket keys by v / 2
+struct TransCmp {
+  typedef void is_transparent;
+  template <class A, class B, typename std::enable_if<std::is_arithmetic<A>::value && std::is_arithmetic<B>::value, bool>::type = true>
+  bool operator()(const A &a, const B &b) const {
+    ++g_cmp_calls;
+    return a < b;
+  }
+  template <class A, typename std::enable_if<std::is_arithmetic<A>::value, bool>::type = true>
+  bool operator()(const A &a, Bucket k) const {
+    ++g_cmp_calls;
+    return static_cast<int>(a) / 2 < k.b;
+  }
+  template <class A, typename std::enable_if<std::is_arithmetic<A>::value, bool>::type = true>
+  bool operator()(Bucket k, const A &a) const {
+    ++g_cmp_calls;
+    return k.b < static_cast<int>(a) / 2;
+  }
+};
+
 #if CFG_CMP == 0
 typedef std::less<T> Cmp;
 typedef std::less<int> MCmp;
@@ -145,16 +169,16 @@ typedef ModCmp MCmp;
 constexpr const char *kCmpName = "stateful";
 inline Cmp make_cmp() { return Cmp(3); }
 inline MCmp make_mcmp() { return MCmp(3); }
+#elif CFG_CMP == 4
+typedef TransCmp Cmp;
+typedef TransCmp MCmp;
+constexpr const char *kCmpName = "transparent";
+inline Cmp make_cmp() { return Cmp(); }
+inline MCmp make_mcmp() { return MCmp(); }
 #elif CFG_CMP == 5
 typedef SelfCmp Cmp;
 typedef SelfCmp MCmp;
 constexpr const char *kCmpName = "selfptr";
-inline Cmp make_cmp() { return Cmp(); }
-inline MCmp make_mcmp() { return MCmp(); }
-#elif CFG_CMP == 4
-typedef std::less<> Cmp;
-typedef std::less<> MCmp;
-constexpr const char *kCmpName = "transparent";
 inline Cmp make_cmp() { return Cmp(); }
 inline MCmp make_mcmp() { return MCmp(); }
 #endif
